@@ -28,7 +28,7 @@ c_QueryOn == FALSE
 c_J == 2
 c_EmitOps == {1}
 c_EmitMod == 60
-c_EmitRes == 1
+c_EmitRes == 0
 c_EmitSmall == 2
 c_EmitFilter == "all"
 ====
